@@ -29,6 +29,7 @@ def anchored_files():
 def limits_rule(chk, prog):
     """C07-a: sizes taken from the archive reach an allocation only below the implementation limits"""
     n = 0
+    kinds = set()
     for f in prog.functions():
         if not f.unit.src.startswith("lib/tar/src/"):
             continue
@@ -41,6 +42,7 @@ def limits_rule(chk, prog):
             if size.is_const:
                 continue
             n += 1
+            kinds.add(nm)
             chk.analysed(f)
             inst = "%s:%s@%d" % (f.name, nm, c.line)
             B = Bounder(prog, f)
@@ -56,6 +58,8 @@ def limits_rule(chk, prog):
                         continue
                 chk.violation("K6-limit", inst, c, "a size decoded from the archive reaches %s without being compared against "
                               "a constant limit: a crafted header makes the packer allocate (and read) gigabytes" % nm)
+    if kinds != {"record_to_memory", "read_pax_header"}:
+        chk.broke("K6-limit: not both kinds of archive-sized reads found (%s)" % sorted(kinds))
     return n
 
 
@@ -330,6 +334,20 @@ def chase_rule(chk, prog):
     input: besides 'the chain ended' and 'back at the start' it has an exit that fires on any cycle -- a comparison of two
     pointers that both advance (tortoise and hare) or a hop counter with a bound"""
     n = 0
+    # what "follows a link": the path lookup of the tree API, and static helpers that hand back what it (or another such
+    # helper) returns for a node they were given -- found by shape, whatever they are called
+    follow = {"fstree_get_node_by_path"}
+    for _round in range(3):
+        for g in prog.functions():
+            if g.decl or not g.unit.src.startswith("lib/fstree/") or g.name in follow or not g.internal:
+                continue
+            if not (g.ret or "").endswith("struct.tree_node_t*"):
+                continue
+            g.build()
+            if not any(a.ty.endswith("struct.tree_node_t*") for a in g.params):
+                continue
+            if any(norm_callee(c.callee) in follow for c in g.calls()):
+                follow.add(g.name)
     for f in prog.functions():
         if f.decl or not f.unit.src.startswith("lib/fstree/"):
             continue
@@ -342,7 +360,7 @@ def chase_rule(chk, prog):
                     if pred not in body:
                         continue
                     for x in backward_slice(val, phi_control=False):
-                        if x.is_inst and x.op == "call" and norm_callee(x.callee) in ("fstree_get_node_by_path", "follow_link"):
+                        if x.is_inst and x.op == "call" and norm_callee(x.callee) in follow:
                             follows.append(p)
                         elif x.is_inst and x.op == "load":
                             g = strip_casts(x.ops[0])
@@ -423,7 +441,8 @@ def run(chk):
         run_optnull(chk, load_program(tool), "K5-optnull")
     chk.floor("K5-optnull", 6)
     controls(chk)
-    chk.floor("K6-limit", 4)
+    # one site per kind at least (long name/link records, the PAX record); shared helpers lower the count of sites
+    chk.floor("K6-limit", 2)
     chk.floor("K6-index", 6)
     chk.floor("K1-validate", 6)
     chk.floor("K6", 30)
